@@ -35,26 +35,35 @@ SPEC = dict(
                 mismatch_fn="c29b_mismatches", shard=120),
     rule="1-3 in-memory shards (distinct repo ranks incl. 0 and 65535) x 1-6 documents (4 extensions/languages, words with "
          "word/partial boundaries, symbols covering/overlapping words with 12 ctags kinds, filenames containing the pattern) x 9 query "
-         "shapes (substring, case, or, and, boosted atoms with weights 2/0.5/1.5/3/1+1e-10, file:, sym:) x line/chunk mode x default/BM25; "
-         "Search-API oracle (package search): 1-4 shards through shardedSearcher.Search/StreamSearch with the default GOMAXPROCS, repeated 4x + DebugScore. "
+         "shapes (substring, case, or, and, boosted atoms, file:, sym:; half of the queries carry a Boost: 55% ordinary weights 2/0.5/1.5/3/1+1e-10/1, "
+         "30% special: +Inf, NaN, -Inf, 0, -2, 1e300, MaxFloat64, 1e100 (the cap), 1e101, 1e12, 5e-324; 15% two nested boosts whose product overflows / is NaN / "
+         "is ordinary) x line/chunk mode x default/BM25; "
+         "Search-API oracle (package search): 1-4 shards (a quarter of the files low-priority *_test names) through shardedSearcher.Search/StreamSearch with the default "
+         "GOMAXPROCS, repeated 4x + DebugScore; 45% of its queries are built as PROTO messages with Boost doubles +Inf/NaN/-Inf/1e300 nested/MaxFloat64/0/-2/1e101/20 "
+         "and converted by query.QFromProto (the real API path of a boost). "
          "every search is run 5x without and 1x with DebugScore; 3 tfScore(k,b,L,f) samples per case (exact L, relative 2^-40).  Correspondence (default scorer): candidate features re-derived "
-         "independently from the corpus, model computes all scores and both orders; order compared exactly, match scores within "
-         "2^-30, file scores within 2^-12. non-trivial = >= 2 files and a file with >= 2 matches.",
+         "independently from the corpus, the weight of a candidate is passed as the binary64 product of its boosts (rational, +-Inf or NaN) and capped by the model; "
+         "model computes all scores and both orders; scores compared rank by rank and identity by identity within 2^-30 (matches) / 2^-12 (files) + 2^-48 relative, "
+         "which fixes the order up to binary64 ties. non-trivial = >= 2 files and a file with >= 2 matches.",
     trusted_base=["correspondence harness harness/overlay/index/zz_verif_c29_test.go (corpus generator, feature re-derivation, Go oracle), oracle harness harness/overlay/search/zz_verif_c29_test.go",
                   "translator/scoreconsts (go/ast + go/constant) regenerating coq/Generated/ScoreConsts.v from the Go source on every run",
                   "scoreSymbolKind is called as is to obtain the kind score of a symbol (its table is not modelled; only its maximum factor is generated)",
                   "atom count per file is read from the debug string of the DebugScore run (visitMatchAtoms is not modelled)",
-                  "binary64 vs exact rationals: order compared exactly, scores within 2^-30 (matches) / 2^-12 (files); 0.9 is 9/10 in the model",
+                  "binary64 vs exact rationals: scores within 2^-30 (matches) / 2^-12 (files) + 2^-48 relative, order up to entries closer than that (a large boost absorbs "
+                  "the tie-breaking terms: equal binary64 scores come back in an unspecified order); 0.9 is 9/10 in the model",
+                  "NaN and -Inf boost products are given the effective weight 0 in the exact model (they never win a comparison in scoreLine/boostScore, exactly like 0); tied by correspondence cases",
                   "sort.Sort (unstable) modelled as stable insertion sort: order 'up to ties'"],
-    assumptions=["boost weights are finite and non-negative in the bound theorem", "scores compared up to binary64 rounding"],
+    assumptions=["none on boost weights: C29_scores_finite_for_every_boost covers every binary64 product (rational, +-Inf, NaN) through the cap of setScoreWeight; "
+                 "kind scores within the generated maximum, repository rank in uint16, document number below the document count",
+                 "scores compared up to binary64 rounding"],
 )
 
 
-def check(ctx):
+def check(ctx, pre_broken=None):
     """standard_check + a second, oracle-only harness at the Search API (package search)"""
     pid = ctx.pid
     proofs = vf.coq_props(ctx, pid)
-    broken, failures = [], []
+    broken, failures = list(pre_broken or []), []
     aok, aout = vf.audit()
     if not aok:
         proofs["ok"] = False
@@ -106,8 +115,9 @@ def run(ctx):
     ok, out = regen(ctx)
     try:
         if not ok:
-            return vf.finish(ctx, "proof", dict(obligations=0, discharged=0), dict(evaluations=0, distinct_nontrivial=0),
-                             broken=["translator/scoreconsts failed on the current source: " + out])
+            # the generated constants are stale (left as they were): the tie is broken; still run the harnesses so
+            # that the Go oracles can name concrete failing inputs
+            return check(ctx, pre_broken=["translator/scoreconsts failed on the current source: " + out])
         return check(ctx)
     finally:
         if os.path.realpath(vf.REPO) != "/repo":
